@@ -8,7 +8,8 @@
 #          R<k>-<name>     /verif/tools/errfacts/regressions/R<k>-<name>.diff  (classic shapes no seeded change has)
 # Scratch directory: $ERRVAL_DIR (default /root/scratch-errfacts/val); remove it afterwards.
 set -u
-VERIF=/verif
+VERIF=${VERIF:-/verif}          # the framework copy under test (default: /verif)
+SEEDED=${SEEDED:-/verif/seeded}   # where the seeded changes live
 REPO=/repo
 WORK=${ERRVAL_DIR:-/root/scratch-errfacts/val}
 BIN=$WORK/errfacts
@@ -30,7 +31,7 @@ run_one() {
   rm -rf "$root"; mkdir -p "$root"
   case $m in
     baseline) ;;
-    C??-m?) patch=$VERIF/seeded/$m/patch.diff ;;
+    C??-m?) patch=$SEEDED/$m/patch.diff ;;
     R*)     patch=$VERIF/tools/errfacts/regressions/$m.diff ;;
     *) echo "== $m | unknown mutant"; return ;;
   esac
